@@ -68,7 +68,7 @@ def model_strategy():
   (c) keyframes whose values are filled in after a first compile (sizes are only known then)."""
   @st.composite
   def strat(draw):
-    gm = draw(mg.models(max_bodies=4, mocap=True, userdata=True, sensors=False, equalities=True, actuators=True, tendons=True))
+    gm = draw(mg.models(max_bodies=4, mocap=True, userdata=True, sensors=True, history=True, equalities=True, actuators=True, tendons=True))
     xml = gm.xml
     bodies = gm.info['bodies']
     neq_extra = draw(st.sampled_from([0, 0, 7, 9, 12, 14]))
